@@ -15,7 +15,7 @@ import time
 import z3
 
 from mir import parse_mir, INT_TYPES
-from sym import (Executor, State, VInt, VBool, VAgg, VVec, VRef, VOpaque, VUnit, VIter, Finding, PathEnd, is_true)
+from sym import (VSlice, Executor, State, VInt, VBool, VAgg, VVec, VRef, VOpaque, VUnit, VIter, Finding, PathEnd, is_true)
 
 
 class Context:
@@ -2515,6 +2515,11 @@ def _hard_wrap_posts(ctx, f, exe, m, ref, pieces, allchars, outs, label, want_se
         # also with overflow allowed: an over-wide character is flushed on a line of its own, the line in progress always fits
         # (this is what the hard-wrap contract of the other wrap specs assumes)
         post(exe, s2, z3.ULE(p["line_len"], m.width.e), f.name, label + ": the line in progress fits the block even when overflow is allowed")
+        # C11: allowing overflow changes nothing unless something cannot fit: when every character fits an empty line,
+        # no flushed line is wider than the block, whatever the option says
+        allfit = z3.And(*[z3.ULE(wrapmodel.char_width(c), m.width.e) for c in allchars])
+        post(exe, s2, z3.Implies(allfit, z3.ULE(p["maxlen"], m.width.e)), f.name,
+             label + ": with overflow allowed a line overflows only by a character wider than the block")
         # every character of the word is emitted exactly once, in order
         got = []
         seq = []      # characters and fragment markers in emission order
@@ -4158,6 +4163,71 @@ def spec_hidden_element_nothing(ctx, make_exe):
     return {"function": f.name, "paths": len(outs)}
 
 # ----------------------------------------------------------------------------
+# SPEC: Selector::matches is do_matches on the whole component list: nothing in front of it may decide the answer.
+# (do_matches itself is the subject of selector_simple / selector_combinators / nth_child_arith.)
+# ----------------------------------------------------------------------------
+
+def spec_selector_entry(ctx, make_exe):
+    import summaries
+    orig = summaries.summarize
+    f = the([g for g in ctx.find(r"::matches$") if g.args and "Selector" in g.args[0][1] and len(g.args) == 2], "Selector::matches")
+    shapes = [["Class", "CombChild", "Element"], ["Element"], ["Hash", "CombChild", "Element", "CombDescendant", "Class"], ["Star", "CombChild", "Star"], []]
+    total = 0
+    for shape in shapes:
+        exe = make_exe(loop_bound=8, inline=[r"SelectorComponent", r"\{closure"])
+        st = State()
+        comps = []
+        for i, k in enumerate(shape):
+            comps.append(VAgg("SelectorComponent::" + k, k, [VOpaque("String", "name%d" % i)] if k in ("Class", "Element", "Hash") else []))
+        cv = VVec(comps)
+        sel = _agg(ctx, "Selector", components=cv)
+        calls = []
+
+        def summ(exe_, st_, f_, bb_, callee, args, dest_ty, calls=calls, cv=cv):
+            c = callee.strip()
+            if re.search(r"Selector::do_matches$", c):
+                a0 = args[0]
+                while isinstance(a0, VRef):
+                    a0 = exe_.deref(st_, a0)
+                whole = a0 is cv
+                if isinstance(a0, VSlice):
+                    def cval(x):
+                        if isinstance(x, int):
+                            return x
+                        e = z3.simplify(x.e) if hasattr(x, "e") else None
+                        return e.as_long() if e is not None and z3.is_bv_value(e) else None
+                    whole = a0.vec is cv and cval(a0.start) == 0 and cval(a0.end) == len(cv.elems)
+                r = exe_.fresh("bool", exe_.fresh_name("do_matches"))
+                st_.calls.append(("do_matches_result", [bool(whole), r, repr(a0)[:80]], f_.name, bb_))
+                return [(st_, r)]
+            if re.search(r"<String as PartialEq>::(eq|ne)$|<str as PartialEq>::(eq|ne)$", c):
+                return [(st_, exe_.fresh("bool", exe_.fresh_name("streq")))]
+            return orig(exe_, st_, f_, bb_, callee, args, dest_ty)
+        summaries.summarize = summ
+        try:
+            try:
+                outs = exe.run(f.name, {1: VRef("val", sel), 2: VRef("val", VOpaque("Rc<Node>", "node"))}, st)
+            except PathEnd as e:
+                raise Inconclusive("Selector::matches: %s" % e)
+        finally:
+            summaries.summarize = orig
+        if not outs:
+            raise Inconclusive("Selector::matches: no path returned")
+        total += len(outs)
+        for (s2, ret) in outs:
+            seq = [(cl[1][0], cl[1][1], cl[1][2]) for cl in s2.calls if cl[0] == "do_matches_result"]
+            full = [r for (w, r, _) in seq if w]
+            if os.environ.get("MIRSYM_DEBUG"):
+                print("   ", shape, [(w, d) for (w, _, d) in seq])
+            if not isinstance(ret, VBool):
+                raise Inconclusive("Selector::matches did not return a boolean")
+            if len(full) != 1:
+                post(exe, s2, z3.BoolVal(False), f.name, "selector %s: the answer is not taken from do_matches on the whole selector (%d such calls on this path)" % ("/".join(shape) or "-", len(full)))
+            else:
+                post(exe, s2, ret.e == full[0].e, f.name, "selector %s: matches() answers what do_matches says about the whole selector" % ("/".join(shape) or "-"))
+    return {"function": f.name, "paths": total}
+
+# ----------------------------------------------------------------------------
 # SPEC: block arms of do_render_node: the node's style is pushed on the renderer that is current when the arm starts
 # and unwound on that same renderer - i.e. after every sub-renderer the arm pushed has been popped again - exactly
 # once on every successful way through the arm and the closures tree_map_reduce calls for it (prefn, postfn per
@@ -5264,6 +5334,11 @@ ALL = [
          bounds="every sequence of 4 (thorough: 5) tokens over {identifier, ( ) [ ] { } ;}, then end of input",
          assumptions=["parse_token delivers the scripted tokens; derived PartialEq on Token compares discriminants for bracket tokens"],
          replay=lambda fd, vals, info: {"harness": "m_at_rule_skip", "values": [[0]]}),
+    Spec("selector_entry", ["C20"], spec_selector_entry,
+         functions=["Selector::matches"],
+         bounds="component lists of 0, 1, 3, 3 and 5 components (class / element / id / star compounds, child and descendant combinators) with opaque names",
+         assumptions=["Selector::do_matches is observed (argument and an arbitrary boolean result); string comparisons are arbitrary booleans"],
+         replay=lambda fd, vals, info: {"harness": "m_selector_entry", "values": [[0]]}),
     Spec("block_arms_depth", ["C09", "C19", "C07"], spec_block_arms_depth,
          functions=["do_render_node (Block, Header, Div, BlockQuote, Ul, Ol, ListItem, Dl, Dt, Dd, Break, FragStart arms and the closures "
                     "tree_map_reduce calls for them: prefn, postfn, cons)"],
